@@ -19,7 +19,8 @@
              (`EmacsState.last_kill_word_killed`, here `St.kwKilled`),
     3d7917f  vi `dd` keeps empty first / last lines; linewise operators store one empty line,
     0c4b424  `Document.cut_selection` strips only the newline that terminates the last selected line,
-    45b8a77  operators on a visual BLOCK selection include the column under the cursor.
+    45b8a77  operators on a visual BLOCK selection include the column under the cursor,
+    0ae97d1  (found by C05) `paste_clipboard_data` with a count `≤ 0` returns the document unchanged.
   Kept as it is in the code (observed, not part of C09): kill-word with a NEGATIVE argument passes a
   negative count to `Buffer.delete`, which removes `text_after_cursor[:-k]` (forward).
 
@@ -148,9 +149,10 @@ def blockGo (scol : Nat) (count : Int) : List Text → Nat → List Text → Lis
 def lenSum (ls : List Text) : Nat := (ls.map List.length).sum
 
 /-- `Document.paste_clipboard_data(data, paste_mode, count)`: the new text and the new cursor
-    position handed to `Document(...)` (an `Int`: it is negative for CHARACTERS data and a
-    negative count). -/
+    position handed to `Document(...)`.  A count `≤ 0` returns the document itself. -/
 def pasteRaw (b : Buf) (d : Clip) (mode : PasteMode) (count : Int) : Text × Int :=
+  -- "Nothing to paste for a zero or negative repetition argument": `return self`
+  if count ≤ 0 then (b.text, (b.cur : Int)) else
   match d.ty with
   | .chars =>
     let ins := rep d.text count
